@@ -33,6 +33,7 @@ type wkey struct {
 type readItem struct {
 	data []byte
 	err  error
+	once bool // the error comes once, with the last of these bytes; after it the stream is silent
 }
 
 type faultStream struct {
@@ -40,6 +41,7 @@ type faultStream struct {
 	closed    bool
 	writeDead bool
 	readErr   error
+	onceErr   error // reported once, by the Read that hands out the last pending byte
 	pending   []byte
 	readCh    chan readItem
 	closeCh   chan struct{}
@@ -58,8 +60,18 @@ func (s *faultStream) Read(p []byte) (int, error) {
 		if len(s.pending) > 0 {
 			n := copy(p, s.pending)
 			s.pending = s.pending[n:]
+			var err error
+			if len(s.pending) == 0 && s.onceErr != nil {
+				err, s.onceErr = s.onceErr, nil
+			}
 			s.mu.Unlock()
-			return n, nil
+			return n, err
+		}
+		if s.onceErr != nil {
+			err := s.onceErr
+			s.onceErr = nil
+			s.mu.Unlock()
+			return 0, err
 		}
 		if s.readErr != nil {
 			err := s.readErr
@@ -74,7 +86,10 @@ func (s *faultStream) Read(p []byte) (int, error) {
 		select {
 		case it := <-s.readCh:
 			s.mu.Lock()
-			if it.err != nil {
+			if it.once {
+				s.pending = append(s.pending, it.data...)
+				s.onceErr = it.err
+			} else if it.err != nil {
 				s.readErr = it.err
 			} else {
 				s.pending = append(s.pending, it.data...)
@@ -405,20 +420,28 @@ func execCl(op string) func(a []string) string {
 				return "ok"
 			}
 			var err error = io.EOF
-			if a[0] == "err" {
+			if a[0] == "err" || a[0] == "once" {
 				err = errors.New("injected read error")
 			}
 			// part of a frame first: the fault hits in the middle of a message
 			h := qnet.Header{Magic: 0x42dead42, ID: 2, Size: 8, Type: qnet.Reply, Service: 1, Object: 1, Action: 100}
 			frame := wireOf(h, []byte{1, 2, 3, 4, 5, 6, 7, 8})
 			off := n(1)
-			if off > len(frame)-1 {
+			if off > len(frame)-1 && a[0] != "once" {
 				off = len(frame) - 1
 			}
-			if off > 0 {
-				w.st.readCh <- readItem{data: frame[:off]}
+			if off > len(frame) {
+				off = len(frame) // the fault may come with the very last byte of the frame
 			}
-			w.st.readCh <- readItem{err: err}
+			if a[0] == "once" {
+				// a fault reported once, together with the bytes that came before it; then nothing
+				w.st.readCh <- readItem{data: frame[:off], err: err, once: true}
+			} else {
+				if off > 0 {
+					w.st.readCh <- readItem{data: frame[:off]}
+				}
+				w.st.readCh <- readItem{err: err}
+			}
 			w.lost = true
 			w.settleLoss()
 			return "ok"
@@ -704,8 +727,13 @@ func runC11(r *Rand, tier string, o *Out) {
 					o.Do("P", fmt.Sprintf("cl.rfail eof %d", r.Intn(36)), true)
 					o.Count("fault:eof")
 				case 1:
-					o.Do("P", fmt.Sprintf("cl.rfail err %d", r.Intn(36)), true)
-					o.Count("fault:read-error")
+					if r.Bool() {
+						o.Do("P", fmt.Sprintf("cl.rfail once %d", r.Intn(37)), true)
+						o.Count("fault:read-error-once-with-bytes")
+					} else {
+						o.Do("P", fmt.Sprintf("cl.rfail err %d", r.Intn(36)), true)
+						o.Count("fault:read-error")
+					}
 				case 2:
 					o.Do("P", "cl.close", true)
 					o.Count("fault:local-close")
@@ -852,8 +880,8 @@ func runC11(r *Rand, tier string, o *Out) {
 		o.Do("P", "cl.final", true)
 	}
 	// systematic: one pending call + subscription + callback, the fault at every byte offset
-	for off := 0; off < 36; off++ {
-		for _, kind := range []string{"eof", "err"} {
+	for off := 0; off <= 36; off++ {
+		for _, kind := range []string{"eof", "err", "once"} {
 			for _, l := range []string{"cl.reset", "cl.ondisc", "cl.sub 1", "cl.call", "cl.wok 0", "cl.call", "cl.event 1 8",
 				fmt.Sprintf("cl.rfail %s %d", kind, off), "cl.wfail 1", "cl.out 0", "cl.out 1", "cl.call", "cl.out 2", "cl.final"} {
 				o.Do("P", l, true)
